@@ -62,6 +62,10 @@ Definition loader_rules : list string :=
 
 Section Load.
 Variable E : env.
+(** [fixed = true]: the parser with fix C02-crossed-map-variables (the pair of variable names of a map_variables is
+    compared as given); [fixed = false]: the pinned tree (the two names are sorted first, so x--y and y--x between
+    the same two components count as a repetition). *)
+Variable fixed : bool.
 
 (** issues for a child that no branch of a loop accepts: non-blank text / comment / anything else *)
 Definition stray_child (other_rule : string) (x : xml) : list issue :=
@@ -611,7 +615,7 @@ Definition load_conn_kid (st : ckid_acc) (k : xml) : ckid_acc :=
               else if negb (nonempty (mv_v2 a)) then [err "MAP_VARIABLES_VARIABLE2_ATTRIBUTE_REFERENCE"] else [] in
     let miss1 := kk_miss1 st || negb (mv_has1 a) || negb (nonempty (mv_v1 a)) in
     let miss2 := kk_miss2 st || negb (mv_has2 a) || negb (nonempty (mv_v2 a)) in
-    let pr := sort2 (mv_v1 a) (mv_v2 a) in
+    let pr := if fixed then (mv_v1 a, mv_v2 a) else sort2 (mv_v1 a) (mv_v2 a) in
     let dup := negb miss1 && negb miss2 && pair_in pr (kk_used st) in
     {| kk_maps := kk_maps st ++ [(mv_v1 a, mv_v2 a, mv_id a)]; kk_found := true; kk_miss1 := miss1; kk_miss2 := miss2;
        kk_used := if negb miss1 && negb miss2 && negb dup then kk_used st ++ [pr] else kk_used st;
@@ -773,7 +777,7 @@ Definition load (strict : bool) (x : xml) : model * list issue :=
   else (empty_model, []).
 
 (** the whole pipeline of the property: print, then parse what was printed *)
-Definition reparse (fixed strict : bool) (m : model) : option (model * list issue) :=
+Definition reparse (strict : bool) (m : model) : option (model * list issue) :=
   option_map (load strict) (print_model E fixed m).
 
 End Load.
